@@ -3,10 +3,11 @@ constant arguments, indexing and unpack_to, operators, and_/or_/not_, reused fun
 defaulted DAG parameters, nested DAG calls with twz_active), run (a) by tawazi, (b) by plain Python
 (the reference of C01), (c) by the model's denotation on the node table tawazi built."""
 import inspect
+import json
 import random
 
 from . import coqrun, sched_cases, tz
-from .terms import OPS, App, Const, Keys, coq_term, enc
+from .terms import OPS, App, Const, Keys, Rec, coq_term, enc
 from .tz import Resource, tawazi
 
 RESL = ["thread", "thread", "async-thread", "main-thread"]
@@ -99,12 +100,17 @@ def gen_prog(rng, name="p", depth=0, max_stmts=8, fid_base=0, p_flag=0.2, p_sub=
         f = dict(fid=fid_base + j, kind=kind, truth=rng.random() < 0.6, priority=rng.randint(-2, 2), is_sequential=rng.random() < 0.15, resource=rng.choice(RESL))
         if kind in ("unpack", "idx"):
             f["truths"] = [rng.random() < 0.6 for _ in range(rng.randint(2, 3))]
+            if kind == "unpack" and random.Random(rng.getrandbits(30)).random() < 0.4:
+                f["rec"] = True  # the unpacked result is a record: indexable, not a Sequence, iteration differs from indexing
         if kind == "dict":
             f["keys"] = [["k%d" % t, rng.random() < 0.6] for t in range(rng.randint(1, 3))]
             kr = random.Random(rng.getrandbits(30))
             for kt in f["keys"]:
-                if kr.random() < 0.3:
+                u_ = kr.random()
+                if u_ < 0.3:
                     kt[0] = ["t", int(kt[0][1:])]  # a TUPLE key ("t", n): indexing with it is one lookup
+                elif u_ < 0.42 and not any(k_[0] is None for k_ in f["keys"]):
+                    kt[0] = None  # None is a key like any other: x[None]
         funs.append(f)
     for i in range(nst):
         r = rng.random()
@@ -192,6 +198,13 @@ def gen_prog(rng, name="p", depth=0, max_stmts=8, fid_base=0, p_flag=0.2, p_sub=
             if active is not None and funs[j]["kind"] == "unpack":
                 active = None  # a deactivated unpacked call cannot be unpacked in plain Python either
             st = dict(op="call", f=j, args=args, kwargs=kwargs, active=active)
+            dup = random.Random(rng.getrandbits(30))
+            prev = stmts[-1] if stmts else None
+            if (dup.random() < 0.15 and prev is not None and prev["op"] == "call" and not prev["kwargs"] and prev["active"] is None
+                    and prev["args"] and all(a_[0] == "var" for a_ in prev["args"])):
+                # the SAME function called again with the SAME upstream results: two call sites, two nodes, two executions
+                st = json.loads(json.dumps(prev))
+                j = st["f"]
             vinfo.append(shape_of_fun(funs[j]))
         stmts.append(st)
     shape = rng.choice(["single", "tuple", "tuple", "list", "dict", "none"])
@@ -277,7 +290,8 @@ def make_raw(f, failing, counter=None):
             raise tz.NodeBoom("f%d" % fid)
         args = tuple(a) + tuple(k[n] for n in sorted(k))
         if kind in ("unpack", "idx"):
-            return tuple(App(fid, t, (Const(i, True),) + args) for i, t in enumerate(f["truths"]))
+            tup = tuple(App(fid, t, (Const(i, True),) + args) for i, t in enumerate(f["truths"]))
+            return Rec(tup) if f.get("rec") else tup
         if kind == "dict":
             return {dk(key): App(fid, t, (Const(Keys.K(key), True),) + args) for key, t in f["keys"]}
         return App(fid, f["truth"], args)
